@@ -268,6 +268,33 @@ SCALARS = {
 }
 
 
+def ulp32(bits):
+    """the neighbouring float32 (one unit in the last place away), staying finite and keeping the sign"""
+    m = bits & 0x7FFFFFFF
+    return bits + 1 if m < 0x7F7FFFFF else bits - 1
+
+
+def rel_ulp(field):
+    """a float header scalar changed by ONE ulp: header scalars are compared exactly (tolerance is stated for samples only)"""
+    def f(a, pick):
+        if field not in a:
+            return None
+        b = copy.deepcopy(a)
+        if field == "startTime":
+            b[field] = ulp32(a[field])
+        else:
+            k = [0, len(a[field]) - 1, pick % len(a[field])][pick % 3]
+            b[field][k] = ulp32(a[field][k])
+        return a, b
+
+    return f
+
+
+def _index(pick, n):
+    """first, last or a random index"""
+    return [0, n - 1, (pick // 3) % n][pick % 3]
+
+
 def rel_scalar(field):
     def f(a, pick):
         t = a["t"]
@@ -281,7 +308,7 @@ def rel_scalar(field):
         elif field == "startTime":
             b[field] = other32(a[field])
         elif field in ("volume", "rot", "trans"):
-            k = pick % len(a[field])
+            k = _index(pick, len(a[field]))
             b[field][k] = other32(a[field][k])
         elif field in ("flag", "flags"):
             b[field] = 1 - a[field]
@@ -308,7 +335,7 @@ def _present_frame(a, b, pick):
         its_a[k]["frames"][0] = v
         its_b[k]["frames"][0] = copy.deepcopy(v)
         present = [0]
-    return k, present[(pick // 5) % len(present)]
+    return k, present[_index(pick // 5, len(present))]
 
 
 def rel_sample(a, pick):
@@ -371,8 +398,8 @@ def rel_cam_field(field):
         if a["t"] != "calib" or not cams:
             return None
         b = copy.deepcopy(a)
-        c = b["cams"][cams[pick % len(cams)]]
-        j = (pick // 7) % len(c[field])
+        c = b["cams"][cams[_index(pick // 5, len(cams))]]
+        j = _index(pick, len(c[field]))
         c[field][j] = other64(c[field][j])
         return a, b
 
@@ -475,6 +502,8 @@ for _f in ("size", "position"):
     DIFF_RELS["platform:" + _f] = rel_plat_field(_f)
 for _f in ("frequency", "startTime", "volume", "rot", "trans", "flag", "flags", "nFrames", "nSamples", "model", "format"):
     DIFF_RELS["scalar:" + _f] = rel_scalar(_f)
+for _f in ("startTime", "volume", "rot", "trans"):
+    DIFF_RELS["ulp:" + _f] = rel_ulp(_f)
 
 
 def relations_for(t):
@@ -504,6 +533,7 @@ def relations_for(t):
     if t == "events":
         rels += ["event-type", "event-count"]
     rels += ["scalar:" + f for f in SCALARS[t]]
+    rels += ["ulp:" + f for f in SCALARS[t] if f in ("startTime", "volume", "rot", "trans")]
     return rels
 
 
@@ -561,6 +591,12 @@ def make_run(t, rel):
             return
         compare(ctx, t, rel, a, b, False, "a==b")
         compare(ctx, t, rel, b, a, False, "b==a")
+        if pick % 2:
+            # one operand decoded from bytes (numpy scalars, decoded containers), the other built by hand
+            ok3, res = ctx.must(lambda: specs.lib_decode(t, b_spec["format"], specs.lib_write(b)), f"{rel}/encode-decode", f"round trip of a valid {t} block")
+            if ok3:
+                compare(ctx, t, rel, a, res[0], False, "a==decoded(b)")
+                compare(ctx, t, rel, res[0], a, False, "decoded(b)==a")
         ctx.case(case, True, labels=[f"{t}:{rel}"])
 
     return run
